@@ -137,6 +137,7 @@ struct Built {
 	NiShape* srcShape = nullptr;
 	std::vector<NiShape*> clones;
 	uint32_t nblocks_before = 0;
+	std::set<std::string> nodes_before; // names of the destination's nodes before cloning
 };
 static const Model* dest_model(const Scn& sc) {
 	if (sc.dest.compare(0, 5, "file:") != 0) return nullptr;
@@ -163,6 +164,7 @@ static Built build(const Scn& sc) {
 	if (sc.shape >= shapes.size()) vf::fatal("shape index out of range");
 	b.srcShape = shapes[sc.shape];
 	b.nblocks_before = b.D->GetHeader().GetNumBlocks();
+	for (auto n : b.D->GetNodes()) b.nodes_before.insert(n->name.get());
 	for (int i = 0; i < sc.count; i++) b.clones.push_back(b.D->CloneShape(b.srcShape, CLONE_NAMES[i], sc.dest == "same" ? nullptr : b.S.get()));
 	return b;
 }
@@ -316,6 +318,17 @@ static void run_scenario(const Scn& sc, Stats& st) {
 				}
 				for (auto& bn : ref.bones[sc.shape])
 					if (!D.FindBlockByName<NiNode>(bn)) { c.viol("clone:bone-missing", "bone node '" + bn + "' does not exist in the destination"); break; }
+				// a bone node the clone brought along is a node of the same class as the source's (NiBone, BSFadeNode, ... stay what they are)
+				if (!same)
+					for (auto& bn : ref.bones[sc.shape]) {
+						if (b.nodes_before.count(bn)) continue;
+						auto dn = D.FindBlockByName<NiNode>(bn);
+						auto sn = b.S->FindBlockByName<NiNode>(bn);
+						if (dn && sn && std::string(dn->GetBlockName()) != sn->GetBlockName()) {
+							c.viol("clone:bone-class-changed", "bone node '" + bn + "' is a " + sn->GetBlockName() + " in the source but was created as a " + dn->GetBlockName() + " in the destination");
+							break;
+						}
+					}
 			}
 			// geometry cache of the clone must be a block of the destination
 			int fc = snap::foreign_geometry_cache(D);
